@@ -3,7 +3,7 @@ use std::{
     future::Future,
     pin::Pin,
     sync::{Arc, Mutex, MutexGuard},
-    task::{Context, Poll, Waker, ready},
+    task::{Context, Poll, ready},
 };
 
 use qbase::{
@@ -11,6 +11,7 @@ use qbase::{
     frame::{ResetStreamFrame, io::SendFrame},
     param::{ArcParameters, ParameterId},
     sid::StreamId,
+    util::WakerVec,
 };
 
 use crate::{
@@ -24,8 +25,9 @@ struct Listener<TX> {
     #[allow(clippy::type_complexity)]
     bi_streams: VecDeque<(StreamId, (ArcRecver<TX>, ArcSender<TX>))>,
     uni_streams: VecDeque<(StreamId, ArcRecver<TX>)>,
-    bi_waker: Option<Waker>,
-    uni_waker: Option<Waker>,
+    // several tasks may wait in accept_bi/accept_uni at the same time
+    bi_wakers: WakerVec<2>,
+    uni_wakers: WakerVec<2>,
 }
 
 impl<TX> Listener<TX> {
@@ -33,23 +35,19 @@ impl<TX> Listener<TX> {
         Self {
             bi_streams: VecDeque::with_capacity(4),
             uni_streams: VecDeque::with_capacity(2),
-            bi_waker: None,
-            uni_waker: None,
+            bi_wakers: WakerVec::new(),
+            uni_wakers: WakerVec::new(),
         }
     }
 
     fn push_bi_stream(&mut self, sid: StreamId, stream: (ArcRecver<TX>, ArcSender<TX>)) {
         self.bi_streams.push_back((sid, stream));
-        if let Some(waker) = self.bi_waker.take() {
-            waker.wake();
-        }
+        self.bi_wakers.wake_all();
     }
 
     fn push_recv_stream(&mut self, sid: StreamId, stream: ArcRecver<TX>) {
         self.uni_streams.push_back((sid, stream));
-        if let Some(waker) = self.uni_waker.take() {
-            waker.wake();
-        }
+        self.uni_wakers.wake_all();
     }
 
     #[allow(clippy::type_complexity)]
@@ -71,7 +69,7 @@ impl<TX> Listener<TX> {
             // recver.update_window(rcv_buf_size);
             Poll::Ready(Ok((sid, (Reader::new(recver), Writer::new(sender)))))
         } else {
-            self.bi_waker = Some(cx.waker().clone());
+            self.bi_wakers.register(cx.waker());
             Poll::Pending
         }
     }
@@ -84,7 +82,7 @@ impl<TX> Listener<TX> {
             // recver.update_window(rcv_buf_size);
             Poll::Ready(Ok((sid, Reader::new(recver))))
         } else {
-            self.uni_waker = Some(cx.waker().clone());
+            self.uni_wakers.register(cx.waker());
             Poll::Pending
         }
     }
@@ -165,12 +163,8 @@ where
     pub(crate) fn on_conn_error(&mut self, e: &QuicError) {
         match self.inner.as_mut() {
             Ok(set) => {
-                if let Some(waker) = set.bi_waker.take() {
-                    waker.wake();
-                }
-                if let Some(waker) = set.uni_waker.take() {
-                    waker.wake();
-                }
+                set.bi_wakers.wake_all();
+                set.uni_wakers.wake_all();
             }
             Err(e) => unreachable!("listener is invalid: {e}"),
         };
